@@ -162,7 +162,11 @@ impl ConnectionState {
         let ch0_slot = match self {
             ConnectionState::Steady(ch0_slot) => ch0_slot,
             ConnectionState::ClientException => return Ok(()),
-            ConnectionState::ServerClosing(_) | ConnectionState::ClientClosed => {
+            // The server has closed the connection; all that is left to do is flush our
+            // CloseOk. What still arrives behind its Close - typically the CloseOk for a
+            // Close of ours that crossed it - is discarded, as the protocol asks.
+            ConnectionState::ServerClosing(_) => return Ok(()),
+            ConnectionState::ClientClosed => {
                 return FrameUnexpectedSnafu.fail();
             }
         };
